@@ -65,7 +65,12 @@ def body_names(sel: int) -> bool:
     sel -= N_EVTGEN
     if sel < N_PDG:
         n = PDG_NAMES[sel]
+        # whatever was asked earlier in the session (the same spelling under the other naming, the same question) must not matter
+        charge_conjugate_name(n)
+        first = charge_conjugate_name(n, pdg_name=True)
         got = charge_conjugate_name(n, pdg_name=True)
+        if first != got:
+            return fail(f"charge_conjugate_name({n!r}, pdg_name=True) answers {first!r}, then {got!r}")
         try:
             ev = PDG2EvtGenNameMap[n]
         except Exception:
@@ -155,4 +160,9 @@ def body_multiset(sel: int, m0: int, m1: int, m2: int, m3: int, bf: int, meta_i:
         return fail("conjugation modified the original mode")
     if len(cm) != len(dm):
         return fail("len of mode changed")
+    # metadata given as None stays None
+    dn = DecayMode(bf, dd, model=None, model_params=None, note=None)
+    cn = dn.charge_conjugate(pdg_name=pdg)
+    if cn.metadata != {"model": None, "model_params": None, "note": None}:
+        return fail(f"metadata with None values changed: {cn.metadata}")
     return True
